@@ -1014,7 +1014,10 @@ func msgLenWithCompressionMap(dns *Msg, compression map[string]struct{}) int {
 }
 
 func domainNameLen(s string, off int, compression map[string]struct{}, compress bool) int {
-	if s == "" || s == "." {
+	if s == "" { // nothing is packed for the absent name of a record without rdata
+		return 0
+	}
+	if s == "." {
 		return 1
 	}
 
